@@ -38,6 +38,26 @@ func buildPool() {
 	})
 }
 
+// struct types reachable from t's fields through pointers, slices, arrays and map elements (time.Time excluded)
+func nestedStructTypes(t reflect.Type, depth int, out *[]reflect.Type) {
+	if depth > 2 {
+		return
+	}
+	for i := 0; i < t.NumField(); i++ {
+		ft := t.Field(i).Type
+		for k := 0; k < 4; k++ {
+			switch ft.Kind() {
+			case reflect.Ptr, reflect.Slice, reflect.Array, reflect.Map:
+				ft = ft.Elem()
+			}
+		}
+		if ft.Kind() == reflect.Struct && ft != timeType && ft.NumField() > 0 {
+			*out = append(*out, ft)
+			nestedStructTypes(ft, depth+1, out)
+		}
+	}
+}
+
 // historyCase: a Struct call on a pooled (or named, or fresh) type with a random configuration
 func historyCase(r *rand.Rand, hot int) Case {
 	buildPool()
@@ -53,6 +73,15 @@ func historyCase(r *rand.Rand, hot int) Case {
 		t = typePool[r.IntN(len(typePool))] // the whole pool: more keys than any capacity
 	default:
 		t = g.structType(2)
+	}
+	var inner []reflect.Type
+	nestedStructTypes(t, 0, &inner)
+	if len(inner) > 0 && chance(r, 0.12) {
+		// a type that is usually met as a sub-object, validated on its own (so that it enters the cache by itself,
+		// before or after the types that contain it)
+		t = pick(r, inner)
+		inner = nil
+		nestedStructTypes(t, 0, &inner)
 	}
 	pv := reflect.New(t)
 	g.fill(pv.Elem(), 0)
@@ -76,6 +105,23 @@ func historyCase(r *rand.Rand, hot int) Case {
 		} else {
 			call.typed = map[interface{}]valid.RM{reflect.New(t).Interface(): rm}
 			tags = append(tags, "rm:typed")
+		}
+	}
+	if len(inner) > 0 && chance(r, 0.3) {
+		// a rule set registered for the type of a sub-object (it applies wherever that type occurs below the root)
+		nt := pick(r, inner)
+		rm := valid.RM{}
+		for i := 0; i < nt.NumField(); i++ {
+			if f := nt.Field(i); f.PkgPath == "" && chance(r, 0.6) {
+				rm[f.Name] = pick(r, []string{"required", "required|inner", "to=1~2", "ge=1", "exist", "required,le=3"})
+			}
+		}
+		if call.typed == nil {
+			call.typed = map[interface{}]valid.RM{}
+		}
+		if _, dup := call.typed[reflect.New(nt).Interface()]; !dup && nt != t {
+			call.typed[reflect.New(nt).Interface()] = rm
+			tags = append(tags, "rm:typed-inner")
 		}
 	}
 	if chance(r, 0.25) {
